@@ -370,6 +370,24 @@ Refines(o, d) ==
       [] d.ok = "maybe" -> (HasV(d) /\ o.ok = "yes" /\ HasV(o)) => EqModRep(o.v, d.v)
 
 Exact(s, raw) == Refines(Unser(s, raw), DeclUnser(s, raw))
+
+\* ------------------------------------------------------------------ C01: round trip
+\* "For every schema and every raw value that Unserialize accepts, the result passes Validate, Serialize
+\* of it succeeds, and unserializing that serialized form - directly or after a CBOR encode/decode exactly
+\* as ATP transports it - yields an equal value whose serialization is identical again."
+\* Equality does not distinguish container representations (nil / empty, []any / []T).
+RoundTrip(s, raw) ==
+    LET u == Unser(s, raw) IN
+    (u.ok = "yes") =>
+        /\ Valid(s, u.v).ok = "yes"
+        /\ LET w == Ser(s, u.v) IN
+           /\ w.ok = "yes"
+           /\ CBORable(w.v)
+           /\ LET u2 == Unser(s, w.v)
+                  u3 == Unser(s, CBOR(w.v))
+              IN /\ u2.ok = "yes" /\ EqModRep(u2.v, u.v)
+                 /\ u3.ok = "yes" /\ EqModRep(u3.v, u.v)
+                 /\ LET w2 == Ser(s, u3.v) IN w2.ok = "yes" /\ EqModRep(w2.v, w.v)
 SamePaths(s, v) ==
     IsNative(s, v) =>
         /\ (Valid(s, v).ok = "yes") = Satisfies(s, v)
